@@ -1,7 +1,7 @@
 SPECIFICATION Spec
 CONSTANTS
   Params = {"p1", "p2"}
-  Mod2 = {"p2"}
+  Mod2 = {}
   Vals = {"a", "b"}
   Errs = {"e1", "e2"}
   Invs = {"i1"}
